@@ -49,6 +49,8 @@ theorem BitArray_unpack_eq (raw : Option Int) (s idx : Int) (d : List UInt8) :
     simp [bitUnpack, intCodec, IntTy.size, IntTy.ofWire, IntTy.signed, decodeLE, UnsignedChar_value_eq, bobj, slotV]
 
 
+@[simp] theorem add_int (a b : Int) : Py.add (.int a) (.int b) = .ok (.int (a + b)) := rfl
+
 theorem lshift_one (idx : Nat) : Py.lshift (.int 1) (.int (idx : Int)) = .ok (.int ((2 ^ idx : Nat) : Int)) := by
   have h : ¬ ((idx : Int) < 0) := by omega
   have e : ((1 : Int) <<< idx) = ((1 <<< idx : Nat) : Int) := Py.shl_natCast 1 idx
